@@ -87,7 +87,7 @@ def _run_task(task):
     rng = random.Random(seed)
     out = []
     with tempfile.TemporaryDirectory(prefix="c01_", dir=tlc.scratch()) as d:
-        yml, clen = c10.make_gene(rng, d, kind)
+        yml, clen = c10.make_gene(rng, d, kind, delins=False)  # the property names SNPs, insertions, deletions
         for genome in ("hg19", "hg38"):
             gene = gen_reads.load_gene(yml, genome)
             if kind == "gendb":
@@ -223,7 +223,13 @@ def run(ctx):
         m = meta[tid]
         kinds = sorted({("ins" if "ins" in v else "del" if "del" in v else "mnp" if len(v.split(".")[-1]) > 3 else "snp")
                         for h in m["haps"] for v in h[1]})
-        ctx.violation(clause, {"stage": "end-to-end", "clause": clause, "kinds": ",".join(kinds)}, m,
+
+        def near_indels(h):
+            ps = sorted(int(v.split(".")[0]) for v in h[1] if "ins" in v or "del" in v)
+            return any(b - a <= 25 for a, b in zip(ps, ps[1:]))
+
+        ctx.violation(clause, {"stage": "end-to-end", "clause": clause, "kinds": ",".join(kinds),
+                               "two_indels_within_25bp_on_one_haplotype": any(near_indels(h) for h in m["haps"])}, m,
                       f"run {tid}: planted={m['planted']} haps={[(h[0], h[2]) for h in m['haps']]} reads={m['read_len']}x{m['depth']} result={m['result']} err={m['error'][:60]}")
 
 
